@@ -355,6 +355,64 @@ class StrMap:
         return rvc.Ref(lambda: s.d[k], lambda v: s.d.__setitem__(k, v))
 
 
+def job_groups_symbolic(seed):
+    """InitializeGroups with SYMBOLIC bin counts per interaction (1, 2 or 3 interactions): block (i,j), i <= j, sits at the prefix-sum offsets with size n_i x n_j; the group matrix is n x n with n = sum n_k"""
+    rvc.reset()
+    fns = fns_all()
+    obs = []
+    F = 'Imc::InitializeGroups'
+    for ni in (1, 2, 3):
+        g = [sp.Symbol('bins%d' % k, integer=True, positive=True) for k in range(ni)]
+        class H:
+            def __init__(s_, k): s_.k = k
+            def call(s_, name, args):
+                if name == 'getNBins': return SInt(g[s_.k])
+                raise rvc.Unsupported('HistogramNew::' + name)
+        class MatM:
+            """the group matrix: Zero(n, n) and block views as ghost values (sizes are symbolic)"""
+            def __init__(s_): s_.dims = None
+            def call(s_, name, args):
+                if name == 'block': return ('block', s_) + tuple(SInt.ex(a) for a in args)
+                raise rvc.Unsupported('MatrixXd::' + name)
+        M = MatM()
+        inters = [{'index_': k, 'average_': H(k), 'p_': 'P%d' % k} for k in range(ni)]
+        grp = {'pairs_': ['stale'], 'interactions_': inters, 'corr_': M}
+        this = {'do_imc_': True, 'groups_': [{'first': 'g', 'second': grp}]}
+        def construct(ex_, n, ty, args):
+            if ty.endswith('pair_t'):
+                v = [rvc.rval(ex_.expr(a)) for a in args]
+                return {'i1_': v[0], 'i2_': v[1], 'offset_i_': v[2], 'offset_j_': v[3], 'corr_': v[4]}
+            return NotImplemented
+        zero = []
+        def store_zero(*d):
+            zero.append(tuple(SInt.ex(x) for x in d)); M.dims = zero[-1]; return M
+        cb = dict(table_cb(), construct=construct, Zero=store_zero)
+        ex = Exec({}, cb, {}, this)
+        try:
+            ex.stmt(rvc.body_of(fns['InitializeGroups'][0]))
+        except Ret:
+            pass
+        pre = [sum(g[:k], sp.Integer(0)) for k in range(ni)]
+        exp = [(i, j) for i in range(ni) for j in range(i, ni)]
+        pairs = grp['pairs_']
+        eq = lambda a, b: sp.expand(SInt.ex(a) if isinstance(a, (int, SInt)) else a) - sp.expand(b) == 0
+        ok = len(pairs) == len(exp) and all(isinstance(p, dict) for p in pairs)
+        if ok:
+            for p, (i, j) in zip(pairs, exp):
+                blk = p['corr_']
+                ok = ok and p['i1_'] is inters[i] and p['i2_'] is inters[j] and eq(p['offset_i_'], pre[i]) and eq(p['offset_j_'], pre[j]) and isinstance(blk, tuple) and blk[0] == 'block' \
+                    and sp.expand(blk[2] - pre[i]) == 0 and sp.expand(blk[3] - pre[j]) == 0 and sp.expand(blk[4] - g[i]) == 0 and sp.expand(blk[5] - g[j]) == 0
+        okz = len(zero) == 1 and all(sp.expand(z_ - sum(g)) == 0 for z_ in zero[0]) and len(zero[0]) == 2 and grp['corr_'] is M
+        o = Ob('C04.groups.sym/n%d/layout' % ni, F, 'stale pairs are dropped; one block per interaction pair i <= j, in order, at the prefix-sum offsets (sum_{t<i} n_t, sum_{t<j} n_t) with size n_i x n_j, for EVERY bin count',
+               'RVC', 'symbolic execution + exact integer normal form', core.BOUNDED if ok else core.REFUTED, 0, str([(p.get('offset_i_'), p.get('offset_j_')) for p in pairs if isinstance(p, dict)])[:300],
+               bound='%d interactions (bin counts symbolic)' % ni, witness=None if ok else {'pairs': str(pairs)[:400]})
+        o['functions'] = mf(fns, ['InitializeGroups']); obs.append(o)
+        o = Ob('C04.groups.sym/n%d/matrix' % ni, F, 'the group matrix is the n x n zero matrix with n = sum of the bin counts', 'RVC', 'symbolic execution', core.BOUNDED if okz else core.REFUTED, 0, str(zero), bound='%d interactions (bin counts symbolic)' % ni,
+               witness=None if okz else {'zero': str(zero)})
+        o['functions'] = mf(fns, ['InitializeGroups']); obs.append(o)
+    return obs
+
+
 def job_norm(seed):
     """BeginEvaluate: pair normalisation 2/(n1 n2) for equal types, 1/(n1 n2) otherwise (so an ideal gas gives 1)"""
     rvc.reset()
@@ -497,7 +555,7 @@ def collect(obs):
 
 
 def run(tier, seed, only=None):
-    jobs = [(job_merge, (seed,)), (job_writedist, (seed,)), (job_groups, (seed,)), (job_norm, (seed,)), (job_nonbonded, (seed,))]
+    jobs = [(job_merge, (seed,)), (job_writedist, (seed,)), (job_groups, (seed,)), (job_norm, (seed,)), (job_nonbonded, (seed,)), (job_groups_symbolic, (seed,))]
     if only:
         jobs = [j for j in jobs if re.search(only, j[0].__name__)]
     obs = core.pmap(jobs)
